@@ -85,7 +85,7 @@ pub uninterp spec fn control_tree(rc: RawControl) -> T;
 #[verifier::external_body]
 pub fn build_tag(rc: RawControl) -> (r: StructureTag) ensures st_tree(r) == control_tree(rc) { unimplemented!() }
 
-pub enum Types { Eoc = 0, Boolean = 1, Integer = 2, BitString = 3, OctetString = 4, Null = 5, Enumerated = 10, Sequence = 16, Set = 17 }
+//@include contracts/shared/lift_types_enum.rs
 
 // ---- RFC 4511 4.1.1: LDAPMessage ::= SEQUENCE { messageID INTEGER, protocolOp CHOICE, controls [0] Controls OPTIONAL }
 // (+ the library's documented Active Directory workaround: a stray trailing [10] element is ignored)
